@@ -31,18 +31,7 @@ pub fn gen_cov_case(rng: &mut Rng, tier: &str, prop: &str) -> Case {
     };
     let records = g.gen(rng);
     let container = gen_container(rng, &records, false, true);
-    let total: usize = records.iter().map(|r| r.seq.len()).sum();
     let threads = gen_threads(rng);
-    // below 1.0 the flush threshold `ceil as u64 * 2^30` is 0: one batch per
-    // record, and the counter runs chunked; from 1.0 up: one batch, one chunk
-    let gb = match rng.weighted(&[30, 30, 40]) {
-        0 => *rng.pick(&[1.0, 6.0, 128.0]),
-        1 => CountCfg::gb_for_limit(750_000_000 / 8),
-        _ => {
-            let lo = (total as u64 / 30).max(1);
-            CountCfg::gb_for_limit(rng.range(lo, (total as u64).max(lo)))
-        }
-    };
     let mut extra = vec![];
     if rng.chance(1, 3) {
         // separate counting input, partly sharing content with the main input
@@ -60,6 +49,21 @@ pub fn gen_cov_case(rng: &mut Rng, tier: &str, prop: &str) -> Case {
             params: params! {},
         });
     }
+    // the ceiling governs the counting pass, which runs on the counting input
+    let total: usize = extra
+        .first()
+        .map(|e| e.records.iter().map(|r| r.seq.len()).sum())
+        .unwrap_or_else(|| records.iter().map(|r| r.seq.len()).sum());
+    // below 1.0 the flush threshold `ceil as u64 * 2^30` is 0: one batch per
+    // record, and the counter runs chunked; from 1.0 up: one batch, one chunk
+    let gb = match rng.weighted(&[30, 30, 40]) {
+        0 => *rng.pick(&[1.0, 6.0, 128.0]),
+        1 => CountCfg::gb_for_limit(750_000_000 / 8),
+        _ => {
+            let lo = (total as u64 / 30).max(1);
+            CountCfg::gb_for_limit(rng.range(lo, (total as u64).max(lo)))
+        }
+    };
     let sched = Sched::draw(rng, 3 * total as u64 + 10 * records.len() as u64 + 16);
     Case {
         prop: prop.into(),
